@@ -324,3 +324,101 @@ func init() {
 		}
 	})
 }
+
+// c38stall (E-enum, inside a bubble): Close is called while level 0 holds NumLevelZeroTablesStall
+// tables, so the flush of the last memtable(s) stalls until a compactor has made room; the compactors
+// must therefore still be running while Close waits for the flusher.  The bubble's virtual clock has
+// not advanced when Close starts (the compactors' first tick has not fired), which makes the state
+// deterministic; ten virtual minutes later Close must have returned.
+func init() {
+	registerEnum("c38stall", func(e *enumCtx) {
+		for _, stall := range []int{2, 3} {
+			for _, pending := range []string{"active", "queued", "queued+active"} {
+				for _, compactors := range []int{2, 4} {
+					stall, pending, compactors := stall, pending, compactors
+					e.do(fmt.Sprintf("stall%d/%s/compactors%d", stall, pending, compactors), func() (c, d string) {
+						inBubble(e.t, func() {
+							dir := freshDir(e.j)
+							defer removeAll(dir)
+							o := smallOpts(dir)
+							o.NumCompactors = compactors
+							o.NumLevelZeroTables, o.NumLevelZeroTablesStall = stall-1, stall
+							o.NumMemtables = 4
+							db := mustOpen(o)
+							set := func(k string) {
+								if err := db.Update(func(txn *Txn) error { return txn.Set([]byte(k), val(k+"|", 64)) }); err != nil {
+									panic(err)
+								}
+							}
+							for i := 0; i < stall; i++ {
+								set(fmt.Sprintf("k%02d", i))
+								lsmFlush(db)
+							}
+							if n := db.lc.levels[0].numTables(); n != stall {
+								c, d = "harness", fmt.Sprintf("level 0 has %d tables, wanted %d", n, stall)
+								_ = db.Close()
+								return
+							}
+							if pending != "active" {
+								set("queued")
+								db.lock.Lock()
+								db.flushChan <- db.mt
+								db.imm = append(db.imm, db.mt)
+								var err error
+								if db.mt, err = db.newMemTable(); err != nil {
+									panic(err)
+								}
+								db.lock.Unlock()
+							}
+							if pending != "queued" {
+								set("active")
+							}
+							closeDone := false
+							var closeErr error
+							go func() { closeErr = db.Close(); closeDone = true }()
+							time.Sleep(10 * time.Minute)
+							if !closeDone {
+								c, d = "deadlock/Close", fmt.Sprintf("Close called with level 0 at the stall limit (%d tables) and %s memtable(s) to flush has not returned after 10 virtual minutes: the flusher is stalled and nothing compacts level 0", stall, pending)
+								// let the leftover goroutines finish: make room in level 0 by hand
+								for i := 0; i < 4 && !closeDone; i++ {
+									runOnceAs(db, 0)
+									time.Sleep(time.Minute)
+								}
+								if !closeDone {
+									bubbleLeakOK = true
+								}
+								return
+							}
+							if closeErr != nil {
+								c, d = "unexpected-error", "Close: "+closeErr.Error()
+								return
+							}
+							// nothing written before Close may be lost
+							db2 := mustOpen(o)
+							defer db2.Close()
+							want := []string{}
+							for i := 0; i < stall; i++ {
+								want = append(want, fmt.Sprintf("k%02d", i))
+							}
+							if pending != "active" {
+								want = append(want, "queued")
+							}
+							if pending != "queued" {
+								want = append(want, "active")
+							}
+							_ = db2.View(func(txn *Txn) error {
+								for _, k := range want {
+									if _, err := txn.Get([]byte(k)); err != nil && c == "" {
+										c, d = "lost-after-close", fmt.Sprintf("key %q written before Close: %v after re-open", k, err)
+									}
+								}
+								return nil
+							})
+						})
+						return
+					})
+				}
+			}
+		}
+	})
+}
